@@ -4,7 +4,7 @@ LEGS = [{"name": "C07", "variant": "serial-O2", "sources": ["harness/C07_optimum
 run, replay = enumcheck.simple("C07", LEGS,
     "case = ordered pair (a,b) x configuration (5 type defaults + 6 user penalty triples with pairwise different magnitudes): all pairs over "
     "{A,C,G} up to length 4 (5 thorough), over {A,C} up to 6 (7), over {L,K,W} up to 3 (4); a planted family (3 flank pairs x every insertion of "
-    "length 1..3 x 5 positions x 0-2 substitutions x 16 overhang combinations); long pairs at 480..1100 columns x 6 edit scripts x 7 configurations on both sides of "
+    "length 1..3 x 5 positions x 0-2 substitutions x 16 overhang combinations); a terminal-overhang family (shared core, overhangs of 5..60 foreign residues at either end of either sequence, 4 layouts); long pairs at 480..1100 columns x 6 edit scripts x 7 configurations on both sides of "
     "the 500-column switch (leg C07g: the same long pairs with 4 threads on the real libgomp, i.e. the parallel Hirschberg halves). An independent "
     "full-matrix three-state DP computes P = argmax S_lo and the best S_hi among all alignments != P; a case is certified if the margin exceeds "
     "delta = gpo + 1 + 0.004(|a|+|b|) + 1e-5|S|; certified cases are run with groups of 1..3 identical copies on either side (seq-seq, seq-profile, "
